@@ -490,7 +490,7 @@ def run(tier, replay=None):
         json.dump(viol, open("/tmp/c07_viol.json", "w"), indent=1, default=str)
     res.coverage.update({
         "evaluations": cnt["probes_checked"] + cnt["pair_probes_checked"] + cnt["memory_jump_probes"], "distinct_nontrivial": cnt["spellings_with_architectural_resource"],
-        "rule": "one evaluation = one probe program compiled by the real compiler and compared by Lean with the binding specification (slot declaration + denoted tree); distinct = operand spellings naming an architectural resource; the spelling space is enumerated from the grammar Lark loaded (all letter spellings, all immediates, all explicit singles, explicit pairs: architectural ones + a seeded sample in quick / all 6400 in thorough, aliases of the corpus + a fixed list)",
+        "rule": "one evaluation = one probe program compiled by the real compiler and compared by Lean with the binding specification (slot declaration + denoted tree); distinct = operand spellings naming an architectural resource; the spelling space is enumerated from the grammar Lark loaded (all letter spellings, all immediates, all explicit singles, explicit pairs: architectural ones + a seeded sample in quick / all 16384 in thorough, aliases of the corpus + a fixed list)",
         "counts": dict(cnt), "rejected_by_kind": {str(k): v for k, v in rejected.items()}, "spellings_without_architectural_resource_not_judged": len(undefined),
         "aliases_in_corpus": aliases_c, "violations_total": len(viol), "samples": samples,
     })
